@@ -2,6 +2,7 @@
 import re
 from facts import norm
 from paths import POLL_RX
+from cfg import op_place
 
 SKIP_DESC = re.compile(r"^(std|core|alloc)::(ops|convert|pin|future|task|option|result|clone|fmt|boxed|mem)::|tracing|IntoFuture|from_residual|Try::branch|Pin<|__private_api|log::")
 
@@ -283,3 +284,53 @@ def matches_tests(fn, sw, variant):
            all(fn.only_via(n, sw[0], list(other)) for n in f_nodes):
             out += fn.bool_tests(local)
     return out
+
+
+def linform(fn, fx, o, depth=0):
+    """linear form of a usize expression over the function's parameters: {'': const, '<param name>': coeff} or None.
+    Follows once-assigned locals through use/copy, `(Add|Sub|Mul)(WithOverflow)` and the `.0` of the checked pair; named constants are
+    looked up in the crate's constant table."""
+    if depth > 30:
+        return None
+    k = o.get("k")
+    if k is not None:
+        if "cdef" in k:
+            v = fx.const(k["cdef"])
+            return {"": v} if isinstance(v, int) else None
+        return {"": k["v"]} if isinstance(k.get("v"), int) else None
+    p = op_place(o)
+    if p is None:
+        return None
+    if len(p) == 2 and p[1] == ".0":
+        p = [p[0]]
+    if len(p) != 1:
+        return None
+    if 1 <= p[0] <= fn.argc and len(fn.defs().get(p[0], [])) == 0:
+        return {fn.names.get(p[0], "_%d" % p[0]): 1}
+    d = fn.single_def(p[0])
+    if d is None or d[1] != "assign":
+        return None
+    rv = d[2]["rv"]
+    if rv["r"] in ("use", "cast"):
+        return linform(fn, fx, rv["o"], depth + 1)
+    if rv["r"] == "bin":
+        a = linform(fn, fx, rv["a"], depth + 1)
+        b = linform(fn, fx, rv["b"], depth + 1)
+        if a is None or b is None:
+            return None
+        op = rv["op"].replace("WithOverflow", "").replace("Unchecked", "")
+        if op in ("Add", "Sub"):
+            sg = 1 if op == "Add" else -1
+            out = dict(a)
+            for s_, c in b.items():
+                out[s_] = out.get(s_, 0) + sg * c
+            return {s_: c for s_, c in out.items() if c != 0 or s_ == ""}
+        if op == "Mul":
+            ca = a.get("", 0) if set(a) <= {""} else None
+            cb = b.get("", 0) if set(b) <= {""} else None
+            if ca is not None:
+                return {s_: c * ca for s_, c in b.items()}
+            if cb is not None:
+                return {s_: c * cb for s_, c in a.items()}
+        return None
+    return None
